@@ -121,6 +121,8 @@ def main(tier):
     rep.attempt(bounds.check, rep, {'raid_pq_gen', 'raid_pq_check'}, 'RAID', 5)
     import guardloop
     rep.attempt(guardloop.check, rep, 'RAID', r'^raid/', 5)
+    import deadvdef
+    rep.attempt(deadvdef.check, rep, 'RAID', r'^raid/', 190)
     import horner
     rep.attempt(horner.check, rep, 68)
     import raidlayout
